@@ -827,9 +827,22 @@ class Engine:
         if n in self.repo.exc:
             return VExc((n,))
         if n in ("DEFAULT_DELIMITERS", "DEFAULT_DELIMS"):
-            # module constant ('#', '/', '_') (checked against the source by the discovery contracts' native runs)
+            # DEFAULT_DELIMS: the specification's delimiter priority ('#', '/', '_') (sidecar constant);
+            # DEFAULT_DELIMITERS: the module constant, read from the current source of curies.discovery on every run
+            vals = ("#", "/", "_")
+            if n == "DEFAULT_DELIMITERS":
+                vals = None
+                for node_ in getattr(self.repo.modules.get("discovery"), "body", []):
+                    if isinstance(node_, ast.Assign) and len(node_.targets) == 1 and isinstance(node_.targets[0], ast.Name) \
+                            and node_.targets[0].id == "DEFAULT_DELIMITERS":
+                        try:
+                            vals = tuple(ast.literal_eval(node_.value))
+                        except (ValueError, SyntaxError):
+                            vals = None
+                if not vals or not all(isinstance(x, str) for x in vals):
+                    raise Unsupported("DEFAULT_DELIMITERS is not a literal tuple of strings in curies.discovery")
             out = None
-            for x in ("#", "/", "_"):
+            for x in vals:
                 one = VList(Int(1), lambda i, x=x: VStr(self.ctx.lit(x)), "str")
                 out = one if out is None else concat_lists(self.ctx, out, one)
             return out
